@@ -8,6 +8,8 @@ import (
 	"go/token"
 	"go/types"
 	"strings"
+
+	"golang.org/x/tools/go/ssa"
 )
 
 func init() {
@@ -255,6 +257,35 @@ func runC16(cx *CheckCtx) {
 		cx.decide(reach == "", "migration-writes", cn+"._deploy/no-init-on-update", "no fresh-deploy initialisation site is reachable with isUpdate = true", "fresh-deploy initialisation ("+reach+") is reachable on the update path: an upgrade resets stored state", reach)
 		// ---- D4 moves
 		checkMoves(cx, a, cn)
+		// ---- D6 an in-place rewrite of an index-keyed family (key = constant ‖ byte(i)) runs over
+		// the stored size of that family, not over a constant: slots beyond the constant keep the old layout
+		for _, s := range a.RealEffects() {
+			if s.Effect != "put" {
+				continue
+			}
+			ps := keyParts(s.Args[1])
+			if len(ps) != 2 || ps[1].Op != "byte" || !ps[1].Args[0].contains(func(x *Term) bool { return x.Op == "phi" }) {
+				continue
+			}
+			fam, _ := ps[0].BytesConst()
+			blk := frameBlock(s, a.tb.root)
+			if blk == nil {
+				continue
+			}
+			hdr := innermostLoop(blk)
+			okR, detail := false, "the rewrite is not in a counted loop of _deploy"
+			if hdr != nil {
+				if ifi, isIf := hdr.Instrs[len(hdr.Instrs)-1].(*ssa.If); isIf {
+					ct := a.tb.Term(a.tb.root, ifi.Cond)
+					detail = "the loop runs while " + ct.pretty()
+					if ct.Op == "bin" && (ct.Name == "<" || ct.Name == "<=") && len(ct.Args) == 2 {
+						b := a.Canon(s.In, ct.Args[1])
+						okR = b.contains(func(x *Term) bool { return x.Op == "read" })
+					}
+				}
+			}
+			cx.decide(okR, "migration-range", cn+"._deploy(update)/"+siteConstruct(a, s), "the rewrite loop over '"+fam+"'‖index is bounded by a stored count", "the in-place rewrite of family '"+fam+"' is not bounded by the stored number of its entries ("+detail+"): entries beyond the bound keep the old layout after the upgrade", s.Where(w))
+		}
 	}
 	_ = c16unused
 	cx.floor("update_methods", 11)
